@@ -15,6 +15,7 @@ CONSTANTS
   Extra,      \* further writes offered: a set of packet sequences (bursts, aliased publishes, big packets)
   Outcomes,   \* handler outcomes offered: subset of {"ok","err","nack"}
   Imm,        \* BOOLEAN: handlers may also complete inside the call (pre-armed)
+  Chunks,     \* sizes of the payload pieces the peer writes after a streamed PUBLISH ({} = no streamed payloads)
   Ends,       \* connection-ending causes offered: subset of {"peer_close", "raw", "close", "force"}
   Strict      \* > 0: the universe contains no protocol violation the monitor cannot classify (ProtoMon `strict`)
 
@@ -43,18 +44,32 @@ Take(s) == /\ st' = Next0(s)
            /\ pred' = Evs(s)
            /\ mon' = Mon!StepAll(mon, Observed(Evs(s)) \o << Quiet >>)
 
-Pub(q, id) == [kind |-> "pub", id |-> IF q = 0 THEN 0 ELSE id, q |-> q, topic |-> "t", alias |-> 0, plen |-> 1]
-Big(q, id) == [Pub(q, id) EXCEPT !.plen = 30]
+Pub(q, id) == [kind |-> "pub", id |-> IF q = 0 THEN 0 ELSE id, q |-> q, topic |-> "t", alias |-> 0, plen |-> 1, sent |-> 1, fin |-> FALSE]
+Big(q, id) == [Pub(q, id) EXCEPT !.plen = 30, !.sent = 30]
+\* a PUBLISH of 12 payload bytes of which 4 go with the header; the rest follows in pieces
+Strm(q, id) == [Pub(q, id) EXCEPT !.plen = 12, !.sent = 4]
+Chk(k, fin) == [kind |-> "chunk", id |-> 0, q |-> 0, topic |-> "", alias |-> 0, plen |-> k, sent |-> k, fin |-> fin]
 Long(q, id) == [Pub(q, id) EXCEPT !.topic = "long"]
 Ali(q, id, topic, a) == [Pub(q, id) EXCEPT !.topic = topic, !.alias = a]
-Ctl(kind, id) == [kind |-> kind, id |-> IF kind = "ping" THEN 0 ELSE id, q |-> 0, topic |-> "", alias |-> 0, plen |-> 0]
+Ctl(kind, id) == [kind |-> kind, id |-> IF kind = "ping" THEN 0 ELSE id, q |-> 0, topic |-> "", alias |-> 0, plen |-> 0, sent |-> 0, fin |-> FALSE]
 Pk(k, i) == CASE k = "pub0" -> Pub(0, 0) [] k = "pub1" -> Pub(1, i) [] k = "pub2" -> Pub(2, i)
               [] k = "big1" -> Big(1, i) [] k = "long1" -> Long(1, i)
+              [] k = "pubs0" -> Strm(0, 0) [] k = "pubs1" -> Strm(1, i)
               [] OTHER -> Ctl(k, i)
 Writes == {<< Pk(k, i) >> : k \in Kinds, i \in Ids} \cup Extra
 
+\* the peer keeps to the framing: while it owes payload it writes payload, and only then
+RECURSIVE Framed(_, _)
+Framed(owe, pk) ==
+  IF pk = << >> THEN TRUE
+  ELSE LET p == Head(pk) IN
+       IF p.kind = "chunk" THEN owe >= p.plen /\ p.fin = (owe = p.plen) /\ Framed(owe - p.plen, Tail(pk))
+       ELSE owe = 0 /\ Framed(IF p.kind = "pub" THEN p.plen - p.sent ELSE 0, Tail(pk))
+Streamed(pk) == \E i \in 1..Len(pk) : pk[i].kind = "pub" /\ pk[i].sent < pk[i].plen
 In(pk, arm) ==
   /\ st.alive /\ st.narr + Len(pk) <= MaxPkts
+  /\ Framed(st.owe, pk)
+  /\ Streamed(pk) => (arm = << >> /\ st.armed = << >>)      \* (handlers of streamed publishes are gated)
   /\ \E ch \in {0, 1} : Take(DoIn(st, pk, arm, ch))
   /\ hist' = Append(hist, [a |-> "in", pk |-> pk, arm |-> arm])
 
@@ -64,17 +79,21 @@ End(k) ==
   /\ Take(DoEnd(st, k))
   /\ hist' = Append(hist, [a |-> "x", o |-> EndTok(st, k)])
 
-Complete(gi, o) ==
+Complete(gi, o, rd) ==
   /\ st.phase \in {"run", "stop"} /\ gi \in 1..Len(st.gates)
+  /\ st.gates[gi].wait = ""
+  /\ rd => (st.gates[gi].kind = "pub" /\ st.gates[gi].sz > 0 /\ o = "ok")
   /\ (st.gates[gi].kind = "stop" => o = "ok")
   /\ (st.gates[gi].kind # "pub" => o = "ok" \/ "err" \in Outcomes)
-  /\ \E ch \in {0, 1} : Take(DoComplete(st, gi, o, ch))
-  /\ hist' = Append(hist, [a |-> "c", h |-> st.gates[gi].h, o |-> o])
+  /\ \E ch \in {0, 1} : Take(DoComplete(st, gi, o, ch, rd))
+  /\ hist' = Append(hist, [a |-> "c", h |-> st.gates[gi].h, o |-> o, rd |-> rd])
 
 Arms == {<< >>} \cup (IF Imm THEN {<< o >> : o \in Outcomes} ELSE {})
+ChunkWrites == {<< Chk(k, k = st.owe) >> : k \in {c \in Chunks : c <= st.owe}}
+                 \cup {<< Chk(k, TRUE), Pub(1, i) >> : k \in {c \in Chunks : c = st.owe}, i \in Ids}     \* the last piece and the next packet in one write
 Next ==
-  \/ \E pk \in Writes, arm \in Arms : In(pk, arm)
-  \/ \E gi \in 1..Len(st.gates), o \in Outcomes : Complete(gi, o)
+  \/ \E pk \in Writes \cup ChunkWrites, arm \in Arms : In(pk, arm)
+  \/ \E gi \in 1..Len(st.gates), o \in Outcomes, rd \in (IF Chunks = {} THEN {FALSE} ELSE BOOLEAN) : Complete(gi, o, rd)
   \/ \E k \in Ends : End(k)
 
 Spec == Init /\ [][Next]_vars
@@ -110,6 +129,10 @@ OOk == {"ok"}
 OAll == {"ok", "err", "nack"}
 ONack == {"ok", "nack"}
 XNone == {}
+CNone == {}
+C48 == {4, 8}
+KStrm == {"pub1", "pubs1", "pubs0"}
+KStrmCtl == {"pub1", "pubs1", "ping"}
 ENone == {}
 EAll == {"peer_close", "raw", "close", "force"}
 EPeer == {"peer_close", "raw"}
